@@ -7,9 +7,28 @@ import Gv.Model.PlanCheckU
 import Gv.Model.PathCheck
 import Gv.Model.CustomCheck
 import Gv.Model.PlanCheckS
+import Gv.Proofs.Safety
 
 namespace Gv.Driver
 open Gv Gv.Sexp Gv.Eval
+
+/-- methods a plan node calls on the SAME value (through casts and value -> pointer nodes only) -/
+def sameValueCallees : Conv → List Nat
+  | .call (.method m) _ _ _ => [m]
+  | .cast i => sameValueCallees i
+  | .underlying _ _ i => sameValueCallees i
+  | .tgtPtr _ i => sameValueCallees i
+  | _ => []
+
+/-- a candidate ranking for `Safety.callsDescend`: the length of the longest chain of same-value calls starting at a method
+(iterated as often as there are methods; on a cyclic call structure no ranking exists and the check below answers false) -/
+def candidateRank (p : Eval.Program) : Nat → Nat :=
+  let callees : List (List Nat) := p.methods.map (fun gm => match gm.body with
+    | some (.convert c) => sameValueCallees c
+    | _ => [])
+  let step (r : List Nat) : List Nat := callees.map (fun cs => cs.foldl (fun acc m => Nat.max acc (r.getD m 0 + 1)) 0)
+  let final := (List.range p.methods.length).foldl (fun r _ => step r) (callees.map (fun _ => 0))
+  fun m => final.getD m 0
 
 /-- parse an input value; `memo` maps labels of already built reference cells to their values -/
 partial def valOf (memo : List (Nat × Val)) (x : Sexp) : Val × List (Nat × Val) :=
@@ -181,7 +200,9 @@ def handleEval (req : Sexp) : Sexp :=
       -- custom functions / declared methods first at every typed position (C06_every_occurrence); the deep-copy fragment
       -- extended by skipCopySameType positions (C04_skipcopy_composite) and whether the program has such a position
       .atom (toString (CustomCheck.customsFirst prog)), .atom (toString (PlanCheckS.checkProgS prog)),
-      .atom (toString (PlanCheckS.progHasShare prog))]] else []
+      .atom (toString (PlanCheckS.progHasShare prog)),
+      -- … and is its call structure acyclic on equal values (C02_total: every well-typed finite value is converted)?
+      .atom (toString (Safety.callsDescend prog (candidateRank prog)))]] else []
     mkList "ok" (outs ++ frag ++ symCompare gc ms req)
 
 end Gv.Driver
